@@ -875,6 +875,25 @@ func (e *Env) evalCall(n ECall) tv {
 			return v
 		}
 		return e.fail("evnth: event has no %s", key)
+	case "private":
+		// private(x): the object / backing array x denotes was allocated by this activation (or by a
+		// function it called), or the caller vouches for it in a precondition: nobody else holds it
+		if len(n.Args) != 1 {
+			return e.fail("private(x)")
+		}
+		x := e.eval(n.Args[0])
+		c.d.Fun("privateObj", []Sort{SInt}, SBool)
+		switch v := x.v.(type) {
+		case Sl:
+			return tv{Sc{T: app("privateObj", SBool, v.Arr)}, boolT}
+		case Sc:
+			if v.T.Sort == SInt {
+				return tv{Sc{T: app("privateObj", SBool, v.T)}, boolT}
+			}
+		case If:
+			return tv{Sc{T: app("privateObj", SBool, v.Val)}, boolT}
+		}
+		return e.fail("private() of a value that is not a reference")
 	case "evis":
 		// evis("pattern"): the event under consideration matches the pattern
 		nameE, ok := n.Args[0].(EStr)
